@@ -28,6 +28,7 @@ EXPLANATION = ("a: Activation::cmp compares salience in (self, other) order and 
                "continuation depends on state the action can change has a local counter incremented on every trip and compared "
                "with a loop-invariant bound on an edge that leaves the loop.")
 FLOORS = {"fire_loops": 3, "cmp_rows": 3}
+EXPLANATION += ' b is decided as a 64-row truth table over {no_loop, fired(rule), lock_on_active, locked(group), activation_group is Some, fired(activation group)} with helper functions inlined (sa/predtable.py): a popped activation is returned iff !(nl&&F) && !(lk&&L) && !(ag&&G); an extra free data test on a gate is a violation; the pop may be inline or inside a closure argument.'
 
 ACT = "rete::agenda::Activation"
 AG = "rete::agenda::AdvancedAgenda"
